@@ -73,6 +73,14 @@ Definition ev_eqb (a b : ev) : bool :=
    or fail on its own.  With an empty script the source blocks until it is shut down. *)
 Inductive iev := IBlock (b : nat) (ok : bool) | IFail.
 
+(* l with its k-th element replaced by f of it (unchanged when k is out of range) *)
+Fixpoint upd {A} (l : list A) (k : nat) (f : A -> A) : list A :=
+  match l, k with
+  | [], _ => []
+  | x :: r, O => f x :: r
+  | x :: r, S k' => x :: upd r k' f
+  end.
+
 (* stage of the one effective Shutdown() call of a shutter *)
 Inductive sdstage := SOnce | SClose | SCb | STerm | SDone.
 Definition sd_rank (g : sdstage) : nat :=
@@ -496,12 +504,6 @@ Module Mx.
   Definition emit (s : state) e := set_log s (e :: log s).
   Definition holds_slock (s : state) : bool := match pcr s with PLoop _ | PInit _ _ => true | _ => false end.
 
-  Fixpoint upd {A} (l : list A) (k : nat) (f : A -> A) : list A :=
-    match l, k with
-    | [], _ => []
-    | x :: r, O => f x :: r
-    | x :: r, S k' => x :: upd r k' f
-    end.
   Definition set_i_term (i : inner) := mki (i_slot i) true (i_pc i) (i_script i).
   Definition set_i_pc (p : ipc) (i : inner) := mki (i_slot i) (i_term i) p (i_script i).
   Definition set_i_script (sc : list iev) (i : inner) := mki (i_slot i) (i_term i) (i_pc i) sc.
@@ -680,13 +682,11 @@ Module Fs.
     match sdst s with Some SCb | Some STerm | Some SDone => true | _ => false end.
   Definition terminated (s : state) : bool := match sdst s with Some SDone => true | _ => false end.
   Definition emit (s : state) e := set_log s (e :: log s).
-  Fixpoint upd {A} (l : list A) (k : nat) (f : A -> A) : list A :=
-    match l, k with
-    | [], _ => []
-    | x :: r, O => f x :: r
-    | x :: r, S k' => x :: upd r k' f
-    end.
   Definition set_file (s : state) (k : nat) (f : fstate -> fstate) := set_files s (upd (files s) k f).
+
+  (* go streamIncomingFile(f): the goroutine of a file that was just sent starts *)
+  Definition spawn_file (f : fstate) : fstate :=
+    match f_pc f with FLaunched => mkf FOpening (f_slot f) (f_left f) | _ => f end.
 
   Definition sd_advance (s : state) : state :=
     match sdst s with
@@ -763,7 +763,7 @@ Module Fs.
         | None, true => if c then launcher_returns s else send s
         end
     | LGo =>
-        let s1 := set_file s (length (files s) - 1) (fun f => mkf FOpening (f_slot f) (f_left f)) in
+        let s1 := set_file s (length (files s) - 1) spawn_file in
         match store s1 with
         | [] => if stop_after s1 then set_pcl s1 LStop else set_pcl s1 LSel
         | _ :: _ => set_pcl s1 LSel
